@@ -218,6 +218,26 @@ impl Harness {
                         sig.won_indexes = s.won_indexes;
                     }
                 }
+                if a["via"].as_str() == Some("http") {
+                    // the steps of POST /register-signatures (http_server/routes/signatures_routes.rs) with the REAL
+                    // authenticator: the submitter names the signed message; a signature that authenticates for NO
+                    // stake distribution is answered 400 and never reaches the certifier
+                    let signed_message = if variant == "bad" {
+                        let mut other = message.clone();
+                        other.set_message_part(mithril_common::entities::ProtocolMessagePartKey::SnapshotDigest, "deadbeef".into());
+                        other.compute_hash()
+                    } else {
+                        message.compute_hash()
+                    };
+                    sig.authentication_status = mithril_common::entities::SingleSignatureAuthenticationStatus::Unauthenticated;
+                    let auth = self.tester.dependencies.verif_single_signature_authenticator();
+                    if let Err(e) = auth.authenticate(&mut sig, &signed_message).await {
+                        return json!({"ok": false, "entity": entity_name(&set), "status": "", "err": format!("authenticator: {e:#}").chars().take(160).collect::<String>(), "authenticated": false});
+                    }
+                    if !sig.is_authenticated() {
+                        return json!({"ok": false, "entity": entity_name(&set), "status": "", "err": "400 could not authenticate signature", "authenticated": false});
+                    }
+                }
                 let r = self.tester.dependencies.certifier_service.register_single_signature(&set, &sig).await;
                 json!({"ok": r.is_ok(), "entity": entity_name(&set), "status": r.as_ref().map(|s| format!("{s:?}")).unwrap_or_default(),
                        "err": r.err().map(|e| format!("{e:#}").chars().take(160).collect::<String>()).unwrap_or_default()})
